@@ -80,6 +80,12 @@ theorem toy_votes_height (p : Nat → Bool) (app : Nat → Nat) (s : Toy) (i : I
   cases i <;> simp only [Toy.step, Input.height?, Toy.onMsg] <;> (repeat' split) <;>
     simp_all [votesOf, effectsOf, Effect.vote?] <;> (try (intro h; subst h; rfl))
 
+theorem toy_timers_height (p : Nat → Bool) (app : Nat → Nat) (s : Toy) (i : Input) (t : Timer)
+    (h : t ∈ timersOf (effectsOf true (Toy.step p app s i).2)) : t.h = s.height := by
+  revert h
+  cases i <;> simp only [Toy.step, Input.height?, Toy.onMsg] <;> (repeat' split) <;>
+    simp_all [timersOf, effectsOf, Effect.timer?] <;> (try (intro h; subst h; rfl))
+
 theorem toy_unstarted_silent (p : Nat → Bool) (app : Nat → Nat) (s : Toy) (i : Input)
     (hst : s.started = false) (hi : i ≠ Input.start) :
     visA (Toy.step p app s i).2 = [] ∧ (Toy.step p app s i).1.started = false ∧
@@ -161,6 +167,7 @@ theorem toy_replaySafe (p : Nat → Bool) (app : Nat → Nat) : ReplaySafe (toyM
   commit_last := fun s i pre h v post heq => toy_commit_last p app s i pre h v post heq
   no_commit_height := fun s i h => toy_no_commit_height p app s i h
   votes_current_height := fun s i v h => toy_votes_height p app s i v h
+  timers_current_height := fun s i t h => toy_timers_height p app s i t h
   unstarted_silent := fun s i h1 h2 _ => toy_unstarted_silent p app s i h1 h2
   future_silent := fun s a h1 h2 => toy_future_silent p app s a h1 h2
   commute := by
@@ -238,6 +245,7 @@ theorem idle_replaySafe : ReplaySafe idleMachine where
     cases pre <;> simp at this
   no_commit_height := fun _ _ _ => rfl
   votes_current_height := by intro s i v hv; simp [idleMachine, effectsOf, votesOf] at hv
+  timers_current_height := by intro s i t ht; simp [idleMachine, effectsOf, timersOf] at ht
   unstarted_silent := fun _ _ _ _ _ => ⟨rfl, rfl, rfl⟩
   future_silent := fun _ _ _ _ => ⟨rfl, rfl⟩
   commute := by
